@@ -181,13 +181,15 @@ class Types:
             if not t:
                 continue
             t = self.strip(t)
+            while t.endswith('&'):
+                t = t[:-1].strip()
             if t.endswith('*'):
                 if not ptr:
                     continue
                 t = t[:-1].strip()
             elif ptr:
                 continue
-            if re.match(r'^(std::|nifly::)?(vector|deque|NiVector|NiVectorBase)<', t):
+            if re.match(r'^(std::|nifly::)?(vector|deque|NiVector|NiVectorBase)<.*>$', t) and '>::' not in t:
                 return True
             if self.string_as_vector and t in ('std::string', 'std::basic_string<char>', 'basic_string<char>', 'string'):
                 return True
